@@ -614,6 +614,12 @@ def col_pool(names):
     for k in range(1, min(len(names), 4) + 1):
         for sub in itertools.permutations(names[:4], k):
             out.append(["list", list(sub)])
+    # repeated names (outside the quantifier: nothing is demanded, but model = implementation is still compared)
+    if len(names) >= 2:
+        out.append(["list", [names[0], names[0]]])
+        out.append(["list", [names[1], names[0], names[1]]])
+    else:
+        out.append(["list", [names[0], names[0]]])
     return out
 
 
